@@ -6,6 +6,7 @@
 //!   `X <w|c> <expr> | a0,..,a5 | ...`  answer `C=..|S=..|D=..|R=lo,hi|P=b|E=o/s;...`
 //!   `Z <w|c> <expr>`                   answer `S=..`          (simplify_canonical directly)
 //!   `F <expr> ; <expr>`                answer `<expr> ; <expr>` (remove_common_factors)
+//!   `E <expr> ; <expr>`                answer `eq=<0|1>`       (PartialEq)
 //!   `G a b` (gcd)   `Q x y` (div_ceil)
 //! `w`/`c` is the arithmetic of this build (wrapping release / overflow-checked), probed at
 //! start-up.
@@ -637,6 +638,63 @@ fn case_f(out: &mut Out, l: &T, r: &T, envs: &[Vec<Option<i32>>]) {
     out.case(&req, &ans, fail.as_deref(), true);
 }
 
+/// Randomly swap operands of commutative nodes; with `mutate`, also change one leaf.
+fn variant(rng: &mut Rng, t: &T, mutate: &mut bool) -> T {
+    match t {
+        T::Val(x) => {
+            if *mutate && rng.chance(1, 3) {
+                *mutate = false;
+                T::Val(x.wrapping_add(1))
+            } else {
+                t.clone()
+            }
+        }
+        T::Var(k, p) => {
+            if *mutate && rng.chance(1, 3) {
+                *mutate = false;
+                T::Var((*k + 1) % NSYM as u8, *p)
+            } else if rng.chance(1, 4) {
+                // same name, other flag: still equal
+                T::Var(*k, !*p)
+            } else {
+                t.clone()
+            }
+        }
+        T::Neg(a) => neg(variant(rng, a, mutate)),
+        T::Bin(o, a, b) => {
+            let (a2, b2) = (variant(rng, a, mutate), variant(rng, b, mutate));
+            // swapping is value-preserving only for commutative operators, but `==` must say so itself
+            if rng.chance(1, 2) { bin(*o, b2, a2) } else { bin(*o, a2, b2) }
+        }
+    }
+}
+
+fn case_e(out: &mut Out, a: &T, b: &T, envs: &[Vec<Option<i32>>]) {
+    let req = format!("E {} ; {}", shows(a), shows(b));
+    let res = hcommon::catch(|| build(a) == build(b));
+    let mut fail = None;
+    let ans = match res {
+        Ok(eq) => {
+            if eq {
+                for env in envs {
+                    let (mut f1, mut f2) = (Feat::default(), Feat::default());
+                    if let Ideal::Ok(v) = ideal(a, env, &mut f1, None) {
+                        let w = ideal(b, env, &mut f2, None);
+                        if w != Ideal::Ok(v) && fail.is_none() {
+                            fail = Some(format!("PartialEq says equal but values differ: {v} vs {w:?} env={}", show_env(env)));
+                        }
+                    }
+                }
+            }
+            out.bucket(if eq { "eq_true" } else { "eq_false" });
+            format!("eq={}", eq as u8)
+        }
+        Err(_) => "panic".into(),
+    };
+    out.bucket("gen_partial_eq");
+    out.case(&req, &ans, fail.as_deref(), depth(a) >= 2);
+}
+
 fn case_g(out: &mut Out, a: i32, b: i32) {
     let req = format!("G {a} {b}");
     let res = hcommon::catch(|| hook::gcd(a, b));
@@ -734,6 +792,12 @@ fn fixed_cases() -> Vec<T> {
         bin(SUB, u(0), bin(SUB, u(1), bin(SUB, u(2), bin(SUB, i(3), bin(SUB, i(4), i(5)))))),
         bin(MAX, i(3), bin(MAX, neg(i(3)), i(3))),
         bin(ADD, T::Var(0, true), neg(T::Var(0, false))),
+        // c11_reassociation_moves_overflow (with the last boundary assignment)
+        bin(ADD, i(3), bin(ADD, i(4), i(5))),
+        bin(DIV, bin(DIV, u(0), u(1)), u(2)),
+        // non-vacuity examples of Props/C11.lean
+        bin(ADD, bin(BC, bin(BC, u(0), u(1)), u(0)), v(0)),
+        bin(ADD, bin(SUB, bin(ADD, u(0), u(1)), u(0)), bin(CEIL, bin(CEIL, u(2), v(2)), v(3))),
     ]
 }
 
@@ -756,6 +820,7 @@ fn run(args: &Args) {
         vec![Some(1); NSYM],
         vec![Some(1), Some(0), Some(2), Some(-1), Some(-2), Some(1)],
         vec![Some(3), Some(1), Some(3), Some(3), Some(1), Some(-2)],
+        vec![Some(5), Some(65536), Some(65536), Some(i32::MAX), Some(1), Some(-5)],
     ];
     for t in fixed_cases() {
         let mut rng2 = Rng::new(7);
@@ -782,6 +847,11 @@ fn run(args: &Args) {
         case_x(&mut out, &cx, &t, &envs, tag);
         if it % 10 == 0 {
             case_z(&mut out, &cx, &t, &envs);
+        }
+        if it % 5 == 2 {
+            let mut mutate = rng.chance(1, 3);
+            let b = variant(&mut rng, &t, &mut mutate);
+            case_e(&mut out, &t, &b, &envs);
         }
         if it % 10 == 1 {
             // products with shared factors for remove_common_factors
@@ -819,5 +889,5 @@ fn run(args: &Args) {
             case_q(&mut out, x, y);
         }
     }
-    out.finish("fixed witness expressions; random SymExpr trees of depth<=5 over 6 symbols (s0-s2 assumed >=0, s3-s5 unrestricted; 1/16 of the trees flip flags per occurrence), constants small/special/extreme (every 4th tree uses the full i32 range), re-used sub-trees; 1/4 hand-shaped trees aimed at rewrite arms (nested Div/DivCeil, common factors, cancellation, idempotence, Broadcast chains); 4-6 assignments per tree (small in-domain, broadcast-friendly {1,n}, boundary 0/1/MIN/MAX, strictly positive, 0/1, arbitrary, missing symbol); simplify_canonical directly on non-canonical trees; remove_common_factors on products with shared factors; gcd/div_ceil random + exhaustive |x|<=12. non-trivial = depth>=2, simplify changed the tree and at least one assignment lies in the documented domain with an in-range reference value");
+    out.finish("fixed witness expressions; random SymExpr trees of depth<=5 over 6 symbols (s0-s2 assumed >=0, s3-s5 unrestricted; 1/16 of the trees flip flags per occurrence), constants small/special/extreme (every 4th tree uses the full i32 range), re-used sub-trees; 1/4 hand-shaped trees aimed at rewrite arms (nested Div/DivCeil, common factors, cancellation, idempotence, Broadcast chains); 4-6 assignments per tree (small in-domain, broadcast-friendly {1,n}, boundary 0/1/MIN/MAX, strictly positive, 0/1, arbitrary, missing symbol); simplify_canonical directly on non-canonical trees; remove_common_factors on products with shared factors; PartialEq on a tree and a variant with randomly swapped operands / flipped symbol flags / one changed leaf; gcd/div_ceil random + exhaustive |x|<=12. non-trivial = depth>=2, simplify changed the tree and at least one assignment lies in the documented domain with an in-range reference value");
 }
